@@ -151,28 +151,64 @@ def from_canon(canon) -> dict:
 # --------------------------------------------------------------- from doc
 
 
-def from_doc(doc) -> dict:
+def from_doc(doc, reachable_only=True) -> dict:
     """Arrangement stored in a (closed) AOEF document.
 
-    Only the lists that belong to the document's collection type count: an
+    Only the lists that belong to the document's collection type count (an
     annotation project has no matches, clip evaluations or predictions, and a
-    loader rightly ignores such keys if a storage fault spliced them in.
+    loader rightly ignores such keys if a storage fault spliced them in), and
+    of those only the records the collection reaches, unless
+    ``reachable_only`` is off: a loader may build a record nothing refers to
+    (and refuse the document for it) or skip it, so "must be refused" is
+    judged on the reachable records and "must load" on all of them.
     """
     data = doc["data"]
-    if data.get("collection_type") != "evaluation":
-        data = {
-            k: v for k, v in data.items()
-            if k not in ("matches", "clip_evaluations", "clip_predictions",
-                         "sound_event_predictions", "sequence_predictions")
-        }
+    kind = data.get("collection_type")
+    if kind in ("prediction_set", "model_run"):
+        foreign = ("matches", "clip_evaluations", "clip_annotations", "tasks")
+    elif kind == "evaluation":
+        foreign = ("tasks",)
+    else:
+        foreign = ("matches", "clip_evaluations", "clip_predictions",
+                   "sound_event_predictions", "sequence_predictions")
+    data = {k: v for k, v in data.items() if k not in foreign}
 
     def index(name):
         return {rec["uuid"]: rec for rec in data.get(name) or []}
 
-    clips = index("clips")
+    all_clips = index("clips")
     anns = index("clip_annotations")
     preds = index("clip_predictions")
-    matches = index("matches")
+    all_matches = index("matches")
+    se_preds = index("sound_event_predictions")
+    seq_preds = index("sequence_predictions")
+
+    # only what is reachable from the collection counts: a record that
+    # nothing refers to is not part of the arrangement being constructed, and
+    # a loader may or may not bother to build it
+    if data.get("collection_type") == "evaluation":
+        root_evals = list(data.get("clip_evaluations") or [])
+        root_anns = [anns[e["annotations"]] for e in root_evals]
+        root_preds = [preds[e["predictions"]] for e in root_evals]
+        match_ids = [i for e in root_evals for i in e.get("matches") or []]
+    elif data.get("collection_type") in ("prediction_set", "model_run"):
+        root_evals, root_anns, match_ids = [], [], []
+        root_preds = list(preds.values())
+    else:
+        root_evals, root_preds, match_ids = [], [], []
+        root_anns = list(anns.values())
+    matches = {i: all_matches[i] for i in match_ids}
+    clip_ids = {a["clip"] for a in root_anns} | {p_["clip"] for p_ in root_preds}
+    clip_ids |= {t["clip"] for t in data.get("tasks") or []}
+    clips = {i: all_clips[i] for i in clip_ids}
+    used_se_preds = {
+        i for p_ in root_preds for i in p_.get("sound_events") or []
+    } | {m.get("source") for m in matches.values() if m.get("source")}
+    used_seq_preds = {i for p_ in root_preds for i in p_.get("sequences") or []}
+    if not reachable_only:
+        matches, clips = all_matches, all_clips
+        used_se_preds, used_seq_preds = set(se_preds), set(seq_preds)
+        root_preds = list(preds.values())
     arr = {
         "clips": [
             {"id": c["uuid"], "start": c["start_time"], "end": c["end_time"]}
@@ -192,10 +228,10 @@ def from_doc(doc) -> dict:
         "scores": [],
         "projects": [],
     }
-    for e in data.get("clip_evaluations") or []:
+    for e in root_evals:
         ann = anns[e["annotations"]]
         pred = preds[e["predictions"]]
-        own = [matches[i] for i in e.get("matches") or []]
+        own = [all_matches[i] for i in e.get("matches") or []]
         arr["clip_evaluations"].append(
             {
                 "id": e["uuid"],
@@ -212,15 +248,16 @@ def from_doc(doc) -> dict:
                 "score": e.get("score"),
             }
         )
-    for name, cls in (
-        ("sound_event_predictions", "SoundEventPrediction"),
-        ("sequence_predictions", "SequencePrediction"),
+    for table, used, cls in (
+        (se_preds, used_se_preds, "SoundEventPrediction"),
+        (seq_preds, used_seq_preds, "SequencePrediction"),
     ):
-        for p in data.get(name) or []:
+        for ident in used:
+            p = table[ident]
             arr["scores"].append((f"{cls}.score", p["score"]))
             for _tag, score in p.get("tags") or []:
                 arr["scores"].append(("PredictedTag.score", score))
-    for p in data.get("clip_predictions") or []:
+    for p in root_preds:
         for _tag, score in p.get("tags") or []:
             arr["scores"].append(("PredictedTag.score", score))
     if data.get("collection_type") == "annotation_project":
